@@ -37,7 +37,7 @@ class P(Prop):
         rng = self.rng
         c = gen.circuit(rng, n_in=(1, 4), n_gates=(1, 7), max_arity=3, dead=False, consts=0.1, p_out=0.5,
                         adversarial=rng.choice([0, 0, 0.15]), out_inputs=rng.choice([0.0, 0.0, 0.4]))
-        outs = sorted(o for o in c.outputs() if c.type(o) != "input")
+        outs = sorted(c.outputs())          # including outputs that are primary inputs (K33)
         ins = sorted(c.inputs())
         k = rng.randint(0, min(3, len(outs), len(ins)))
         state_io = dict(zip(rng.sample(outs, k), rng.sample(ins, k)))
@@ -115,6 +115,10 @@ class P(Prop):
         if set(free_nodes(uc)) != want_free or uc.inputs() != want_free:
             self.fail("search", "unroll-free-inputs", f"free inputs {sorted(free_nodes(uc))} != expected {sorted(want_free)}", case)
             return
+        want_outs = {io_map[o_][t] for o_ in c.outputs() for t in range(steps)}
+        if uc.outputs() != want_outs:
+            self.fail("search", "unroll-outputs", f"outputs {sorted(uc.outputs())} != per-step copies of the outputs {sorted(want_outs)}", case)
+            return
         for trial in range(4):
             s0 = {i: rng.random() < 0.5 for i in state_ins}
             seq = [{i: rng.random() < 0.5 for i in other_ins} for _ in range(steps)]
@@ -147,8 +151,11 @@ class P(Prop):
 
     def gen_seq(self):
         rng = self.rng
-        c = gen.circuit(rng, n_in=(1, 3), n_gates=(1, 6), max_arity=3, dead=False, consts=0.1, p_out=0.4, out_inputs=0.0)
+        c = gen.circuit(rng, n_in=(1, 3), n_gates=(1, 6), max_arity=3, dead=False, consts=0.1, p_out=0.4,
+                        out_inputs=rng.choice([0.0, 0.0, 0.3]))
         gen.add_flops(rng, c, n_flops=(1, 3), connect_all=True)
+        if rng.random() < 0.2:
+            c.add("zp", "input", output=True)        # a feed-through output that drives nothing (K34)
         return c
 
     def check_seq(self, c, steps, afo, iv, ru):
@@ -189,6 +196,11 @@ class P(Prop):
                 a[n] = False
             for f in flops:
                 q_first = io_map[f"{f}_q"][0]
+                given = isinstance(iv, str) or (isinstance(iv, dict) and f in iv)
+                if given and q_first in free_nodes(uc):
+                    self.fail("search", "sequential_unroll-initial-ignored",
+                              f"initial value of {f} was given ({iv}) but its step-0 state is a free signal", case)
+                    return
                 if uc.type(q_first) == "input":
                     a[q_first] = q0[f]
                 elif iv is None or (isinstance(iv, dict) and f not in iv):
